@@ -31,6 +31,8 @@ impl EventGen for SvgElement {
         &self,
         context: &mut TransformerContext,
     ) -> Result<(OutputList, Option<BoundingBox>)> {
+        #[cfg(feature = "verif-hooks")]
+        crate::verif::count_element_eval();
         context.inc_depth()?;
         let res = match self.name.as_str() {
             "loop" => LoopElement(self.clone()).generate_events(context),
@@ -482,7 +484,11 @@ fn process_tags(
     let remain = &mut Vec::new();
 
     while !tags.is_empty() && remain.len() != tags.len() {
+        #[cfg(feature = "verif-hooks")]
+        crate::verif::count_retry_pass();
         for (idx, t) in &mut tags.iter_mut() {
+            #[cfg(feature = "verif-hooks")]
+            crate::verif::sched_point("tag");
             let idx = idx.clone();
             let el = if let Some(el) = t.get_element() {
                 // update early so reuse targets are available even if the element
